@@ -3,6 +3,7 @@ package checks
 import (
 	"bytes"
 	"fmt"
+	"math/rand"
 	"net"
 	"runtime/debug"
 	"strings"
@@ -161,30 +162,18 @@ func runC17(c *fw.Case) (o fw.Outcome) {
 				}
 				v6 = ip6.String()
 			}
-			o.Input = fmt.Sprintf("IPAddressToNgap(%q,%q)", v4, v6)
-			tla := ngapConvert.IPAddressToNgap(v4, v6)
-			if m := retainCheck("tla", tla.Value.Bytes, o.Input); m != "" {
-				o.Fail("retained-result-changed:ip", "%s", m)
+			if !c17Pair(&o, v4, v6) {
 				return
 			}
-			var want []byte
-			if v4 != "" {
-				want = append(want, net.ParseIP(v4).To4()...)
+			// neighbouring inputs in the same process: one argument held while the other changes, and pairs whose
+			// textual concatenation coincides with the previous pair's (a digit moved across the boundary) - results
+			// must depend on the two arguments only, never on an earlier call
+			for _, nb := range c17Neighbours(r, v4, v6) {
+				o.Count("neighbouring_address_pairs", 1)
+				if !c17Pair(&o, nb[0], nb[1]) {
+					return
+				}
 			}
-			if v6 != "" {
-				want = append(want, net.ParseIP(v6).To16()...)
-			}
-			if int(tla.Value.BitLength) != 8*len(want) || !bytes.Equal(tla.Value.Bytes, want) {
-				o.Fail("ip-to-ngap", "IPAddressToNgap(%q,%q) = %d bits %x, TS 38.414 gives %d bits %x", v4, v6, tla.Value.BitLength, tla.Value.Bytes, 8*len(want), want)
-				return
-			}
-			g4, g6 := ngapConvert.IPAddressToString(tla)
-			if g4 != v4 || g6 != v6 {
-				o.Fail("ip-round-trip", "IPAddressToString(IPAddressToNgap(%q,%q)) = (%q,%q)", v4, v6, g4, g6)
-				return
-			}
-			o.Count("addresses", 1)
-			o.Count(fmt.Sprintf("addresses_%dbit", tla.Value.BitLength), 1)
 		}
 	case 4:
 		o.Tag("pco")
@@ -257,6 +246,75 @@ func runC17(c *fw.Case) (o fw.Outcome) {
 			}
 			o.Count("dnns", 1)
 		}
+	}
+	return
+}
+
+// c17Pair checks one (IPv4, IPv6) text pair through IPAddressToNgap and back.
+func c17Pair(o *fw.Outcome, v4, v6 string) bool {
+	o.Input = fmt.Sprintf("IPAddressToNgap(%q,%q)", v4, v6)
+	tla := ngapConvert.IPAddressToNgap(v4, v6)
+	if m := retainCheck("tla", tla.Value.Bytes, o.Input); m != "" {
+		o.Fail("retained-result-changed:ip", "%s", m)
+		return false
+	}
+	var want []byte
+	if v4 != "" {
+		want = append(want, net.ParseIP(v4).To4()...)
+	}
+	if v6 != "" {
+		want = append(want, net.ParseIP(v6).To16()...)
+	}
+	if int(tla.Value.BitLength) != 8*len(want) || !bytes.Equal(tla.Value.Bytes, want) {
+		o.Fail("ip-to-ngap", "IPAddressToNgap(%q,%q) = %d bits %x, TS 38.414 gives %d bits %x", v4, v6, tla.Value.BitLength, tla.Value.Bytes, 8*len(want), want)
+		return false
+	}
+	g4, g6 := ngapConvert.IPAddressToString(tla)
+	same := func(a, b string) bool { // textual forms may differ (leading zeros in a group), the address may not
+		if a == "" || b == "" {
+			return a == b
+		}
+		return net.ParseIP(a).Equal(net.ParseIP(b))
+	}
+	if !same(g4, v4) || !same(g6, v6) {
+		o.Fail("ip-round-trip", "IPAddressToString(IPAddressToNgap(%q,%q)) = (%q,%q)", v4, v6, g4, g6)
+		return false
+	}
+	o.Count("addresses", 1)
+	o.Count(fmt.Sprintf("addresses_%dbit", tla.Value.BitLength), 1)
+	return true
+}
+
+// c17Neighbours derives valid pairs related to (v4, v6).
+func c17Neighbours(r *rand.Rand, v4, v6 string) (out [][2]string) {
+	valid4 := func(s string) bool {
+		ip := net.ParseIP(s)
+		return ip != nil && ip.To4() != nil && !strings.Contains(s, ":")
+	}
+	valid6 := func(s string) bool { ip := net.ParseIP(s); return ip != nil && ip.To4() == nil }
+	if v4 != "" && v6 != "" {
+		// move leading characters of the IPv6 text to the end of the IPv4 text and the other way round
+		for k := 1; k <= 2 && k < len(v6); k++ {
+			if a, b := v4+v6[:k], v6[k:]; valid4(a) && valid6(b) {
+				out = append(out, [2]string{a, b})
+			}
+		}
+		for k := 1; k <= 2 && k < len(v4); k++ {
+			if a, b := v4[:len(v4)-k], v4[len(v4)-k:]+v6; valid4(a) && valid6(b) {
+				out = append(out, [2]string{a, b})
+			}
+		}
+		// a pair built to collide: "<a>.<b>.<c>.<d>" + "<e>::<f>"  vs  "<a>.<b>.<c>.<d><e>" + "::<f>"
+		d, e := 1+r.Intn(24), 1+r.Intn(9)
+		base := fmt.Sprintf("10.%d.%d.", r.Intn(256), r.Intn(256))
+		f := fmt.Sprintf("%x", 1+r.Intn(0xfffe))
+		out = append(out, [2]string{base + fmt.Sprint(d), fmt.Sprintf("%d::%s", e, f)}, [2]string{base + fmt.Sprint(d) + fmt.Sprint(e), "::" + f})
+		out = append(out, [2]string{v4, ""}, [2]string{"", v6}, [2]string{v4, v6})
+		out = append(out, [2]string{net.IP(rbytes(r, 4)).String(), v6}, [2]string{v4, v6})
+	} else if v4 != "" {
+		out = append(out, [2]string{v4, "2001:db8::" + fmt.Sprintf("%x", 1+r.Intn(0xfffe))}, [2]string{v4, ""})
+	} else if v6 != "" {
+		out = append(out, [2]string{"10.0.0." + fmt.Sprint(r.Intn(256)), v6}, [2]string{"", v6})
 	}
 	return
 }
